@@ -2,7 +2,7 @@
    The idle timer is proved on the timed model of pipe.rs (exact virtual clock: a timer fires at
    its deadline; a late real timer only delays the close). *)
 From Coq Require Import List NArith Bool.
-From TT Require Import Lib.BytesL Model.Pipe Generated.PipeFacts Generated.TimeoutFacts Proofs.PipeProofs.
+From TT Require Import Lib.BytesL Model.Pipe Model.Listener Generated.PipeFacts Generated.TimeoutFacts Proofs.PipeProofs.
 Import ListNotations.
 Open Scope N_scope.
 
@@ -33,6 +33,64 @@ Theorem idle_closed_within_2T :
 Proof. exact idle_closed_within_2T_reachable. Qed.
 Print Assumptions idle_closed_within_2T.
 
+(* the session-level timer (client_listener_timeout): for every history of accepted requests, ended
+   requests and expiries, the session is closed by that timer only at an expiry at which no request
+   was in service - a session with a tunnel in service is never closed by it - and an expiry of an
+   idle session does close it *)
+Theorem listener_timer_spares_sessions_in_service :
+  forall es, closed_by_timer (lrun LISTENER_TIMEOUT_SPARES_ACTIVE_SESSIONS es) = true ->
+             closed_with (lrun LISTENER_TIMEOUT_SPARES_ACTIVE_SESSIONS es) = 0%nat.
+Proof.
+  intros es. unfold lrun.
+  assert (G : forall s, (closed_by_timer s = true -> closed_with s = 0%nat) ->
+                        closed_by_timer (fold_left (lstep LISTENER_TIMEOUT_SPARES_ACTIVE_SESSIONS) es s) = true ->
+                        closed_with (fold_left (lstep LISTENER_TIMEOUT_SPARES_ACTIVE_SESSIONS) es s) = 0%nat).
+  { induction es as [|e r IH]; intros s I; cbn [fold_left]; [exact I|]. apply IH.
+    unfold lstep. destruct (closed_by_timer s) eqn:C; [intros _; apply I; reflexivity|].
+    destruct e; cbn [closed_by_timer closed_with]; try discriminate.
+    change LISTENER_TIMEOUT_SPARES_ACTIVE_SESSIONS with true. cbn [andb].
+    destruct (Nat.eqb (in_service s) 0) eqn:E; cbn [negb closed_by_timer closed_with].
+    - intros _. apply PeanoNat.Nat.eqb_eq in E. exact E.
+    - rewrite C. discriminate. }
+  apply G. cbn. discriminate.
+Qed.
+Print Assumptions listener_timer_spares_sessions_in_service.
+
+Theorem listener_timer_closes_idle_sessions :
+  forall s, closed_by_timer s = false -> in_service s = 0%nat ->
+            closed_by_timer (lstep LISTENER_TIMEOUT_SPARES_ACTIVE_SESSIONS s LExpire) = true.
+Proof. intros s C I. unfold lstep. rewrite C, I. reflexivity. Qed.
+Print Assumptions listener_timer_closes_idle_sessions.
+
+(* the defect this exposed: without the test of requests in service the timer closes a session
+   that is relaying a tunnel *)
+Example ex_listener_as_found : closed_with (lrun false [LAccept; LExpire]) = 1%nat /\ closed_by_timer (lrun true [LAccept; LExpire]) = false.
+Proof. split; reflexivity. Qed.
+
+(* the establishment clause itself, for every completion time of the outbound connect (including
+   never): the attempt is settled no later than the establishment timeout, whatever the idle
+   timeout of established tunnels is; it fails exactly when the connect had not completed by then *)
+Theorem establishment_settled_by_its_own_timeout :
+  forall est other done_at,
+    match establish CONNECT_UNDER_ESTABLISHMENT_TIMEOUT est other done_at with
+    | EConnected t => done_at = Some t /\ (t < est)%N
+    | EFailed t => t = est /\ (forall d, done_at = Some d -> (est <= d)%N)
+    end.
+Proof.
+  intros est other done_at. change CONNECT_UNDER_ESTABLISHMENT_TIMEOUT with true. unfold establish.
+  destruct done_at as [t|].
+  - destruct (N.ltb_spec t est) as [L|L].
+    + split; [reflexivity|exact L].
+    + split; [reflexivity|]. intros d D. injection D as <-. exact L.
+  - split; [reflexivity|]. intros d D. discriminate D.
+Qed.
+Print Assumptions establishment_settled_by_its_own_timeout.
+
+(* what the guarded mix-up does: under the idle timeout of established tunnels (a week by default) an
+   unanswered connect is still pending long after the establishment timeout *)
+Example ex_establish_mixup : establish false 400 604800000 None = EFailed 604800000 /\ establish true 400 604800000 None = EFailed 400.
+Proof. split; reflexivity. Qed.
+
 (* establishment and handshake timeouts: the code still wraps the connect in
    connection_establishment_timeout (expiry -> ConnectionError::Timeout -> 502 / X-Warning 302),
    the TLS accept in tls_handshake_timeout (expiry -> connection dropped), and runs the pipe with
@@ -40,7 +98,8 @@ Print Assumptions idle_closed_within_2T.
 Theorem establishment_timeouts_in_place :
   CONNECT_UNDER_ESTABLISHMENT_TIMEOUT = true /\ TIMEOUT_REPORTED_AS_502_302 = true
   /\ TLS_ACCEPT_UNDER_HANDSHAKE_TIMEOUT = true /\ PIPE_RUN_WITH_TCP_TIMEOUT = true
-  /\ PIPE_EXPIRY_AS_MODELLED = true /\ PIPE_AWAITS_AS_MODELLED = true.
+  /\ PIPE_EXPIRY_AS_MODELLED = true /\ PIPE_AWAITS_AS_MODELLED = true
+  /\ LISTENER_TIMEOUT_SPARES_ACTIVE_SESSIONS = true.
 Proof. repeat split; exact eq_refl. Qed.
 Print Assumptions establishment_timeouts_in_place.
 
